@@ -92,6 +92,12 @@ func AddHooks(ctx *core.Context, cronner Cronner, state core.State) error {
 
 		if err = cronner.ScheduleEvent(ctx, se); err != nil {
 			core.Log(core.WARN|CRON, ctx, "addHook", "id", id, "error", err)
+			if loading && err == NoFutureOccurrence {
+				// A stored rule whose schedule has run out since
+				// it was written: nothing to schedule, and no
+				// reason not to load the location.
+				return nil
+			}
 			return err
 		}
 
